@@ -83,7 +83,10 @@ def _install(ctx):
 
 def _truth(ctx, P, a):
     out, _, _ = P.reference(ctx, {P.wrts[0]: a})
-    return np.asarray(out[P.ofs[0]], dtype=object if ctx.sym else float).reshape(-1)
+    if ctx.sym:
+        return np.asarray(out[P.ofs[0]], dtype=object).reshape(-1)
+    r = np.asarray(out[P.ofs[0]])          # complex values (the complex-step oracle of a float replay) are kept
+    return (r if np.iscomplexobj(r) else r.astype(float)).reshape(-1)
 
 
 def _quotient(ctx, f, a, method, form, steps):
